@@ -193,6 +193,20 @@ def check(prop, tier, seed, t0):
             crashed.append(res)
             continue
         if res['status'] != 'ok':
+            # the function left the verified subset (typically: changed code): before giving up, look for a real failing input of its contract
+            hit = None
+            if res['kind'] == 'fn':
+                try:
+                    hit, _tried = native.fuzz_contract(res['name'], seed, 300, reg)
+                except Exception:
+                    hit = None
+            if hit is not None:
+                o = dict(id='%s#contract:native-search' % res['name'], kind='contract', label='native-search', props=[prop], line=None, expect='unsat',
+                         verdict='undischarged', backend='native', time=0.0, model=hit['inputs'], goal='the contract of %s holds' % res['name'],
+                         note='%s (%s); failing input found by native contract search: %s' % (res['status'], res['detail'], hit['native']['failed'][:2]),
+                         native=hit['native'], finding=None)
+                violations.append((dict(res, obligations=[o]), o))
+                continue
             undecided.append('%s %s: %s (%s)' % (res['kind'], res['name'], res['status'], res['detail']))
             continue
         if res['name'] not in (functions if res['kind'] != 'lemma' else lemmas):
